@@ -5,6 +5,7 @@ the same settings and RNG seed, the output of a freshly constructed model of the
 training data, whose parameters/buffers were copied tensor by tensor. If an operation raises, the exploration
 continues from the resulting state, and (in eval mode) a probe prediction is compared immediately.
 """
+import os
 import contextlib
 
 import torch
@@ -304,11 +305,14 @@ FAMILIES_QUICK = {"exact": 3, "svgp": 3, "kiss": 3, "sgpr": 3, "multitask": 3, "
                   "svgp_nat": 2, "svgp_mf": 2, "lmc": 2}
 FAMILIES_THOROUGH = {"exact": 5, "svgp": 5, "kiss": 4, "sgpr": 4, "multitask": 4, "fixednoise": 4, "usvgp": 4, "rff": 4, "gridk": 4,
                      "svgp_nat": 4, "svgp_mf": 4, "lmc": 4, "svgp_delta": 3, "indep_mt": 3, "svgp_trilnat": 3, "gridvar": 3,
-                     "orthdec": 3, "matern_ard": 3, "sumprod": 3}
+                     "orthdec": 3, "matern_ard": 3, "sumprod": 3, "ciq": 3, "batchdec": 3}
 
 
 def main(ctx):
     fams = FAMILIES_THOROUGH if ctx.tier == "thorough" else FAMILIES_QUICK
+    if os.environ.get("VERIF_C03_FAMS"):  # development aid: restrict the run to some families (never set by a MANIFEST command)
+        fams = {k: v for k, v in fams.items() if k in os.environ["VERIF_C03_FAMS"].split(",")}
+        ctx.cap("restricted to families " + ",".join(fams))
     per = {}
     for fam, depth in fams.items():
         st = explorer.bfs(ctx, "run_history", {"fam": fam}, alphabet(fam, ctx.tier), depth, dedupe=True, enabled=enabled, label=fam)
